@@ -68,7 +68,9 @@ class Tracker:
         return None
 
     def lats_for(self, entries):
-        """Latency the implementation samples for each scheduled entry (min=max)."""
+        """Latency each scheduled entry must get according to the specification (min=max):
+        a buffered READ of a resident page the 100 ns hit latency, every WRITE and fsync the
+        configured I/O latency whatever the residency (writes only populate the cache)."""
         out = []
         for (op, ud, flags) in entries:
             if flags & REJECTED or op[0] == "cancel":
@@ -351,6 +353,14 @@ def oracle(case, obs):
                 late = [x for x in pending if x["max_at"] <= now]
                 if o[0] < len(late):
                     fail("cmd %d: sync exposes %d completions at %d ns although %d submitted operations are past their latency" % (ci, o[0], now, len(late)))
+        elif n == "readable":
+            r = rings[c[1]]
+            if r["alive"] and not r.get("dup") and o in (0, 1):
+                pending = [x for x in r["acc"] if x["done"] == 0]
+                if o == 1 and not any(x["min_at"] <= now for x in pending):
+                    fail("cmd %d: ring readable at %d ns although no submitted operation has reached its latency" % (ci, now))
+                if o == 0 and any(x["max_at"] <= now for x in pending):
+                    fail("cmd %d: ring not readable at %d ns although a submitted operation is past its latency" % (ci, now))
         elif n == "next":
             r = rings[c[1]]
             if not isinstance(o, list):
@@ -669,6 +679,91 @@ def gen_dup(rng):
         s += [["cq_new", 0], ["sync", 0]] + [["next", 0]] * 14
     s.append(["dump", 0])
     return {"cfg": cfg, "script": s, "flavour": "dup", "full_drain": True}
+
+
+def gen_cache(rng):
+    """Page cache on, I/O latency min=max well above the 100 ns cache-hit latency: a page is made
+    resident (buffered ring read or ring write, plus synchronous accesses, which do not touch the
+    cache), then ring reads and ring WRITES to the same and to other pages are submitted and the
+    ring is inspected just before / at / after the hit latency and the configured latency.  A read
+    of a resident page may complete after 100 ns; a write always waits for the configured latency."""
+    L = rng.choice([1000, 5000, 10000])
+    ps = rng.choice([8, 8, 4096])
+    cfg = {"mode": "direct", "seed": rng.randrange(1 << 30), "lat_ns": L,
+           "cache": {"page_size": ps, "max_pages": rng.choice([1, 2, 3, 8])}, "nfiles": rng.choice([1, 2])}
+    nfiles = cfg["nfiles"]
+    s = [["open", 0], ["new", 8]]
+    nfd = 1
+    if nfiles == 2 or rng.random() < 0.3:
+        s.append(["open", nfiles - 1])
+        nfd = 2
+    now = 0
+    ud = 10
+    offs = [0, 1, ps - 1, ps, ps + 1, 2 * ps, 3 * ps + 2]
+    for _ in range(rng.randrange(2, 6)):
+        # make some page resident (or not)
+        k = rng.randrange(nfd)
+        page_off = rng.choice(offs)
+        pre = rng.choice(["read", "write", "sread", "none", "read"])
+        if pre in ("read", "write"):
+            ud += 1
+            op = ["read", k, page_off, 2] if pre == "read" else ["write", k, page_off, [rng.randrange(1, 250)]]
+            s += [["push", 0, op, ud, 0], ["submit", 0, 0]]
+            now += L
+            s += [["now", now], ["cq_new", 0], ["sync", 0], ["next", 0], ["next", 0]]
+        elif pre == "sread":
+            s.append(["sread", k, page_off, 2])
+        # the operations under test
+        t0 = now
+        for _ in range(rng.choice([1, 1, 2, 3])):
+            ud += 1
+            same = rng.random() < 0.7
+            off = (page_off // ps) * ps + rng.randrange(min(ps, 6)) if same else rng.choice(offs)
+            if rng.random() < 0.65:
+                op = ["write", k if same else rng.randrange(nfd), off, [rng.randrange(1, 250) for _ in range(rng.choice([1, 2]))]]
+            else:
+                op = ["read", k if same else rng.randrange(nfd), off, rng.choice([1, 2, 4])]
+            s.append(["push", 0, op, ud, 0])
+        s.append(["submit", 0, 0])
+        for dt in sorted(set(rng.sample([0, 99, 100, 101, L // 2, L - 1, L, L + 1], rng.choice([2, 3, 4])))):
+            now = t0 + dt
+            s.append(["now", now])
+            y = rng.random()
+            if y < 0.5:
+                s += [["cq_new", 0], ["sync", 0]] + [["next", 0]] * rng.choice([0, 1, 4])
+            elif y < 0.8:
+                s += [["cq_new", 0], ["sync", 0]]
+            else:
+                s.append(["readable", 0])
+        now = max(now, t0 + L)
+    now += 2 * L
+    s += [["now", now], ["cq_new", 0], ["sync", 0]] + [["next", 0]] * 16
+    for f in range(nfiles):
+        s.append(["dump", f])
+    return {"cfg": cfg, "script": s, "flavour": "cache", "full_drain": True}
+
+
+def exhaustive_cache():
+    """resident / not resident  x  read / write  x  inspection instant, page cache on, L = 1000 ns"""
+    out = []
+    L = 1000
+    for pre in ("none", "read", "write"):
+        for kind in ("read", "write"):
+            for same_page in (True, False):
+                for t in (99, 100, 101, L - 1, L):
+                    s = [["open", 0], ["new", 4]]
+                    now = 0
+                    if pre != "none":
+                        op = ["read", 0, 0, 2] if pre == "read" else ["write", 0, 1, [9]]
+                        s += [["push", 0, op, 11, 0], ["submit", 0, 0], ["now", L], ["cq_new", 0], ["sync", 0], ["next", 0]]
+                        now = L
+                    off = 2 if same_page else 8
+                    op = ["read", 0, off, 2] if kind == "read" else ["write", 0, off, [7, 8]]
+                    s += [["push", 0, op, 12, 0], ["submit", 0, 0], ["now", now + t], ["readable", 0], ["cq_new", 0], ["sync", 0],
+                          ["next", 0], ["now", now + 2 * L], ["cq_new", 0], ["sync", 0], ["next", 0], ["next", 0], ["dump", 0]]
+                    cfg = {"mode": "direct", "seed": len(out), "lat_ns": L, "cache": {"page_size": 8, "max_pages": 4}, "nfiles": 1}
+                    out.append({"cfg": cfg, "script": s, "flavour": "cache-exhaustive", "full_drain": True})
+    return out
 
 
 def exhaustive_small():
